@@ -356,6 +356,17 @@ def run(ctx):
         searches.append(([dict(q, _free_switch=True) for q in small if q['client'] == q['server'] == 'async'], 2))
         # one deviation also over a delayed network
         searches.append(([dict(q, latency=0.125) for q in small if q['client'] == q['server']], 1))
+        # one deviation on the larger conversations of every pair: a full batch and one more in either direction, an exchange
+        # around a rejected second connect(), greetings from the connect handler, a hang-up after two idle heartbeat cycles
+        medium = []
+        for c, s_ in allpairs:
+            for tr in (['polling'], ['websocket'], None):
+                base_p = {'client': c, 'server': s_, 'transports': tr, 'heartbeat': [1.0, 1.0]}
+                medium += [dict(base_p, c2s=17, s2c=0, atonce=True), dict(base_p, c2s=0, s2c=17, atonce=True),
+                           dict(base_p, c2s=2, s2c=2, connect_again=True), dict(base_p, c2s=1, s2c=2, greet=True),
+                           dict(base_p, c2s=3, s2c=3)]
+                medium += [dict(base_p, c2s=1, s2c=1, idle=2, disconnect=who) for who in ('client', 'server')]
+        searches.append((medium, 1))
     for plist, bound in searches:
         s1, v1, sm, g1 = core.run_search(Interop, plist, bound, ctx.workers, ctx.seed)
         st.merge(s1)
@@ -379,7 +390,7 @@ def run(ctx):
         'rule': '2x2 client/server pairs x transports {[polling],[websocket],both} x heartbeat {(1,1),(2,1)} x conversations: one-directional '
                 'bursts of %r sends with text/JSON/binary payloads, one message of each of %d payload shapes (empty text / dict / list / bytes, nested empties, Unicode, separators, floats, 40-byte binary) in each direction, a 3+3 exchange, an exchange preceded by three greetings sent from inside the connect handler of the server, an idle period of 6 heartbeat cycles with a lasso check, '
                 'and disconnect by either side right after an exchange or after 2 idle cycles. The two applications are parallel scripts: '
-                'the same conversations over a virtual network with one-way delays of 1/16 .. 7/16 s (heartbeat settings chosen so that heartbeats fall inside the handshake and the upgrade while six delays stay within ping_timeout); all interleavings everywhere; one deviation for the small conversations of the %s pairs (thorough: also over a delayed network, and two deviations with free switching for the asyncio/asyncio pair). states = distinct (scenario, both '
+                'the same conversations over a virtual network with one-way delays of 1/16 .. 7/16 s (heartbeat settings chosen so that heartbeats fall inside the handshake and the upgrade while six delays stay within ping_timeout); all interleavings everywhere; one deviation for the small conversations of the %s pairs (thorough: also over a delayed network, one deviation for seven larger conversations - full batches, a rejected second connect(), greetings, hang-up after idle cycles - of every pair, and two deviations with free switching for the asyncio/asyncio pair). states = distinct (scenario, both '
                 'event logs) digests.' % (BURSTS, len(ZOO), 'same-kind' if ctx.quick else 'all'),
         'exhaustive': True, 'bound_completed': 1, 'caps_hit': st.caps,
         'bound_completed_async_pair': 1 if ctx.quick else 2,
